@@ -560,6 +560,14 @@ SPECS = {
             r.is_ok() ==> r->Ok_0.vars == self.vars,
             r.is_ok() ==> r->Ok_0.ssa.output_count == cnt_output(self.ssa.tape@, self.ssa.tape@.len() as int),
             r.is_ok() ==> r->Ok_0.ssa.choice_count <= self.ssa.choice_count,
+            // S3: if the trace is valid for the parent run (every decided clause's value is the selected operand's, bit for
+            // bit), the simplified SSA tape produces exactly the parent's outputs, from ANY initial environments
+            r.is_ok() ==> forall|en: Env, eo: Env, o: Map<int, f32>, inp: Seq<f32>|
+                #![trigger tp(self.ssa.tape@, self.ssa.tape@.len() as int, choices@, Ss { env: eo, outs: o }, inp),
+                           ssa_run_rev(r->Ok_0.ssa.tape@, 0, r->Ok_0.ssa.tape@.len() as int, Ss { env: en, outs: o }, inp)]
+                tp(self.ssa.tape@, self.ssa.tape@.len() as int, choices@, Ss { env: eo, outs: o }, inp)
+                ==> ssa_run_rev(r->Ok_0.ssa.tape@, 0, r->Ok_0.ssa.tape@.len() as int, Ss { env: en, outs: o }, inp).outs
+                    == ssa_run_rev(self.ssa.tape@, 0, self.ssa.tape@.len() as int, Ss { env: eo, outs: o }, inp).outs,
 """),
 }
 
@@ -574,6 +582,7 @@ LOOP_INV = """            invariant
                 ssa_strict(ops),
                 sinv(workspace.bind@, workspace.count, workspace.alloc.allocations@, ops, k_ as int),
                 ops_out@.len() + nlive(workspace.alloc.allocations@, n) == output_count + workspace.count,
+                ssim(workspace.bind@, ops, k_ as int, ops_out@, choices@),
                 forall|k: int| 0 <= k < choices@.len() ==> !(#[trigger] choices@[k] is Unknown),
             decreases self.ssa.tape.len() - k_"""
 
@@ -582,6 +591,11 @@ TAIL_PROOF_PRE = """            proof {
                 assert(emits(w0.bind@, w0.count, op0, kx_, ky_, op, workspace.bind@, workspace.count));
                 lemma_pre_emit(w0.bind@, w0.count, w0.alloc.allocations@, ops, k0, kx_, ky_, op, workspace.bind@, workspace.count);
                 assert(workspace.alloc.op_pre(op));
+                // S3: the emitted op computes the original op's value from the renamed kept arguments
+                assert(is_choice(op0) ==> cidx(ops, k0) == choice_k_ as int);
+                assert(sem_ok(ops, k0, choices@, kx_, ky_, op, w0.bind@[ssa_o(op0)] as int,
+                              if kx_ >= 0 { workspace.bind@[kx_] as int } else { -1 }, if ky_ >= 0 { workspace.bind@[ky_] as int } else { -1 }));
+                lemma_ssim_emit(w0.bind@, w0.count, w0.alloc.allocations@, ops, k0, kx_, ky_, op, workspace.bind@, workspace.count, out0, choices@);
             }
             let ghost a_before = workspace.alloc.allocations@;"""
 TAIL_PROOF_POST = """            proof {
@@ -630,6 +644,8 @@ def generate(sem, enums, names):
             assert(workspace.alloc.allocations@ =~= Seq::new(ops.len(), |i: int| UNASSIGNED));
             lemma_nlive_zero(workspace.alloc.allocations@, n);
             workspace.alloc.lemma_fresh_wf(n);
+            assert(ops_out@ =~= Seq::<SsaOp>::empty());
+            lemma_ssim_init(workspace.bind@, ops, choices@);
         }"""))
     proofs.append((Q, 'k_ += 1;', 0, True, """            proof {
                 assert(ops[k_ as int] == op);
@@ -641,7 +657,8 @@ def generate(sem, enums, names):
             }
             let ghost op0 = op;
             let ghost k0 = k_ as int;
-            let ghost w0 = *workspace;"""))
+            let ghost w0 = *workspace;
+            let ghost out0 = ops_out@;"""))
     # --- Output arm (first match)
     proofs.append((Q, '*reg = workspace.get_or_insert_active(*reg);', 0, True, """                    proof { lemma_pre_output(w0.bind@, w0.count, w0.alloc.allocations@, ops, k0); }"""))
     proofs.append((Q, '*reg = workspace.get_or_insert_active(*reg);', 0, False, """                    proof {
@@ -652,6 +669,7 @@ def generate(sem, enums, names):
     proofs.append((Q, 'workspace.alloc.op(op);', 0, False, """                    proof {
                         let a_after = workspace.alloc.allocations@;
                         lemma_tr_output(w0.bind@, w0.count, a_before, ops, k0, a_after);
+                        lemma_ssim_output(w0.bind@, w0.count, a_before, ops, k0, op, out0, choices@);
                         lemma_nlive_diff(a_before, a_after, n, ssa_o(op), -1, -1);
                         if w0.bind@[ssa_o(op0)] != u32::MAX {
                             lemma_bound_arg_pending(w0.bind@, w0.count, a_before, ops, k0, ssa_o(op0));
@@ -663,7 +681,10 @@ def generate(sem, enums, names):
     # --- inactive path
     proofs.append((Q, 'if workspace.active(index).is_none() {', 0, True, """            proof { assert(index as int == ssa_o(op0) && 0 <= ssa_o(op0) < n); }"""))
     # the `continue` of the inactive path is the first `continue;` after `if op.has_choice()`
-    proofs.append((Q, "                continue;\n            }\n\n", 0, True, """                proof { lemma_tr_skip(w0.bind@, w0.count, w0.alloc.allocations@, ops, k0); }"""))
+    proofs.append((Q, "                continue;\n            }\n\n", 0, True, """                proof {
+                    lemma_tr_skip(w0.bind@, w0.count, w0.alloc.allocations@, ops, k0);
+                    lemma_ssim_skip(w0.bind@, w0.count, w0.alloc.allocations@, ops, k0, out0, choices@);
+                }"""))
     proofs.append((Q, 'let new_index = workspace.active(index).unwrap();', 0, False, """            proof { assert(new_index == w0.bind@[ssa_o(op0)] && new_index != u32::MAX); }"""))
     # --- arms
     ri = 0
@@ -696,21 +717,40 @@ def generate(sem, enums, names):
     # CopyReg arm
     proofs.append((Q, '*src = new_src;', 0, False, "                            proof { kx_ = ssa_a(op0); }"))
     proofs.append((Q, 'workspace.set_active(*src, new_index);', 0, False,
-                   "                            proof { lemma_tr_alias(w0.bind@, w0.count, w0.alloc.allocations@, ops, k0, ssa_a(op0)); }"))
+                   """                            proof {
+                                lemma_tr_alias(w0.bind@, w0.count, w0.alloc.allocations@, ops, k0, ssa_a(op0));
+                                assert(selects(ops, k0, choices@, ssa_a(op0)));
+                                lemma_ssim_alias(w0.bind@, w0.count, w0.alloc.allocations@, ops, k0, ssa_a(op0), out0, choices@);
+                            }"""))
     # choice reg/imm arms: 4 arms, each has one of these statements
     n_ri = sum(1 for nm in names if kinds[nm] == 'choice_ri')
     n_rr = sum(1 for nm in names if kinds[nm] == 'choice_rr')
     for j in range(n_ri):
         proofs.append((Q, 'op = SsaOp::CopyReg(new_index, new_arg);', j, False, "                                proof { kx_ = ssa_a(op0); }"))
         proofs.append((Q, 'workspace.set_active(*arg, new_index);', j, False,
-                       "                                proof { lemma_tr_alias(w0.bind@, w0.count, w0.alloc.allocations@, ops, k0, ssa_a(op0)); }"))
+                       """                                proof {
+                                    lemma_tr_alias(w0.bind@, w0.count, w0.alloc.allocations@, ops, k0, ssa_a(op0));
+                                    assert(cidx(ops, k0) == choice_k_ as int);
+                                    assert(selects(ops, k0, choices@, ssa_a(op0)));
+                                    lemma_ssim_alias(w0.bind@, w0.count, w0.alloc.allocations@, ops, k0, ssa_a(op0), out0, choices@);
+                                }"""))
     for j in range(n_rr):
         proofs.append((Q, 'op = SsaOp::CopyReg(new_index, new_lhs);', j, False, "                                proof { kx_ = ssa_a(op0); }"))
         proofs.append((Q, 'workspace.set_active(*lhs, new_index);', j, False,
-                       "                                proof { lemma_tr_alias(w0.bind@, w0.count, w0.alloc.allocations@, ops, k0, ssa_a(op0)); }"))
+                       """                                proof {
+                                    lemma_tr_alias(w0.bind@, w0.count, w0.alloc.allocations@, ops, k0, ssa_a(op0));
+                                    assert(cidx(ops, k0) == choice_k_ as int);
+                                    assert(selects(ops, k0, choices@, ssa_a(op0)));
+                                    lemma_ssim_alias(w0.bind@, w0.count, w0.alloc.allocations@, ops, k0, ssa_a(op0), out0, choices@);
+                                }"""))
         proofs.append((Q, 'op = SsaOp::CopyReg(new_index, new_rhs);', j, False, "                                proof { kx_ = ssa_b(op0); }"))
         proofs.append((Q, 'workspace.set_active(*rhs, new_index);', j, False,
-                       "                                proof { lemma_tr_alias(w0.bind@, w0.count, w0.alloc.allocations@, ops, k0, ssa_b(op0)); }"))
+                       """                                proof {
+                                    lemma_tr_alias(w0.bind@, w0.count, w0.alloc.allocations@, ops, k0, ssa_b(op0));
+                                    assert(cidx(ops, k0) == choice_k_ as int);
+                                    assert(selects(ops, k0, choices@, ssa_b(op0)));
+                                    lemma_ssim_alias(w0.bind@, w0.count, w0.alloc.allocations@, ops, k0, ssa_b(op0), out0, choices@);
+                                }"""))
     # --- common tail: the last `workspace.alloc.op(op);` of the function (occurrence 1; 0 is in the Output arm)
     proofs.append((Q, '            workspace.alloc.op(op);\n            ops_out.push(op);', 0, True, TAIL_PROOF_PRE))
     proofs.append((Q, '            workspace.alloc.op(op);\n            ops_out.push(op);', 0, False, None))  # placeholder replaced below
@@ -720,6 +760,7 @@ def generate(sem, enums, names):
             lemma_sinv_end(workspace.bind@, workspace.count, workspace.alloc.allocations@, ops);
             lemma_nlive_zero(workspace.alloc.allocations@, n);
             lemma_cnt_choice_bounds(ops, 0, n);
+            lemma_ssim_end(workspace.bind@, ops, ops_out@, choices@);
         }"""))
     # fix the placeholder: proof after `workspace.alloc.op(op);` at the tail = before `ops_out.push(op);` (second occurrence)
     proofs = [p for p in proofs if p[4] is not None]
@@ -733,7 +774,7 @@ def generate(sem, enums, names):
             assert(self.bind@ =~= Seq::new(tape_len as nat, |i: int| u32::MAX));
         }"""))
     loops = [(Q, 'while k_ < self.ssa.tape.len()', LOOP_INV)]
-    prelude = is_choice_fn(enums) + PRELUDE + EXTRA_LEMMAS
+    prelude = is_choice_fn(enums) + rhs_val_fn(enums) + PRELUDE + EXTRA_LEMMAS + S3_PRELUDE
     # groups: Output+def0+copy | emit1 (split in chunks) | emit2 | choice_ri | choice_rr
     groups = []
     by = {}
@@ -834,6 +875,297 @@ proof fn lemma_tail_len(bind: Seq<u32>, count: u32, a: Seq<u32>, ops: Seq<SsaOp>
         }
     } else {
         assert(count2 == count);
+    }
+}
+'''
+
+
+# ================================================================================================
+# S3: value preservation on the traced domain (SSA level)
+#
+#   trace valid for the parent run (tp)  ==>  the simplified SSA tape and the parent SSA tape produce the same
+#   outputs (as terms over the uninterpreted per-opcode functions, i.e. bit for bit), from any initial state.
+
+def rhs_val_fn(enums):
+    L = ['/// value of the right-hand operand of a (choice) clause: second register, or the immediate',
+         'spec fn rhs_val(op: SsaOp, e: Env) -> f32 {', '    match op {']
+    for v, fs in enums['SsaOp']:
+        if fs == ['u32', 'u32', 'u32']:
+            L.append('        SsaOp::%s(_, _, b) => e[b as int],' % v)
+        elif fs == ['u32', 'u32', 'f32']:
+            L.append('        SsaOp::%s(_, _, imm) => imm,' % v)
+    L += ['        _ => e[ssa_a(op)],', '    }', '}',
+          'spec fn out_idx(op: SsaOp) -> int {', '    match op {', '        SsaOp::Output(_, i) => i as int,', '        _ => -1,', '    }', '}']
+    return '\n'.join(L) + '\n'
+
+
+S3_PRELUDE = r'''
+spec fn sel_val(op: SsaOp, c: Choice, e: Env) -> f32 {
+    if c is Left { e[ssa_a(op)] } else { rhs_val(op, e) }
+}
+/// index into the trace of clause j: choices are recorded in evaluation order, i.e. from the END of the list
+spec fn cidx(ops: Seq<SsaOp>, j: int) -> int { cnt_choice(ops, j + 1, ops.len() as int) }
+/// the trace entry of clause j is valid in state s (the state in which op j is evaluated): a decided clause's
+/// value is, bit for bit, the selected operand's (this is what the Kani harnesses prove of every *_choice function)
+spec fn clause_ok(ops: Seq<SsaOp>, j: int, choices: Seq<Choice>, s: Ss, inp: Seq<f32>) -> bool {
+    let op = ops[j];
+    let c = choices[cidx(ops, j)];
+    (is_choice(op) && !(c is Both)) ==> ssa_step(op, s, inp).env[ssa_o(op)] == sel_val(op, c, s.env)
+}
+/// trace_ok for the clauses among ops[0..k), running from state s (the state before ops[k-1] is evaluated)
+spec fn tp(ops: Seq<SsaOp>, k: int, choices: Seq<Choice>, s: Ss, inp: Seq<f32>) -> bool
+    decreases k
+{
+    if k <= 0 { true } else {
+        clause_ok(ops, k - 1, choices, s, inp) && tp(ops, k - 1, choices, ssa_step(ops[k - 1], s, inp), inp)
+    }
+}
+spec fn rel(bind: Seq<u32>, ops: Seq<SsaOp>, k: int, en: Env, eo: Env) -> bool {
+    forall|s: int| #[trigger] pend(bind, ops, k, s) ==> en[bind[s] as int] == eo[s]
+}
+#[verifier::opaque]
+spec fn ssim(bind: Seq<u32>, ops: Seq<SsaOp>, k: int, out: Seq<SsaOp>, choices: Seq<Choice>) -> bool {
+    forall|sn: Ss, so: Ss, inp: Seq<f32>| #![trigger rel(bind, ops, k, sn.env, so.env), tp(ops, k, choices, so, inp)]
+        rel(bind, ops, k, sn.env, so.env) && sn.outs == so.outs && tp(ops, k, choices, so, inp)
+        ==> ssa_run_rev(out, 0, out.len() as int, sn, inp).outs == ssa_run_rev(ops, 0, k, so, inp).outs
+}
+proof fn lemma_ssa_run_ext(a: Seq<SsaOp>, b: Seq<SsaOp>, lo: int, hi: int, s: Ss, inp: Seq<f32>)
+    requires 0 <= lo <= hi <= a.len(), hi <= b.len(), forall|k: int| lo <= k < hi ==> a[k] == b[k]
+    ensures ssa_run_rev(a, lo, hi, s, inp) == ssa_run_rev(b, lo, hi, s, inp)
+    decreases hi - lo
+{
+    if hi > lo { lemma_ssa_run_ext(a, b, lo, hi - 1, ssa_step(a[hi - 1], s, inp), inp); }
+}
+/// a defining op writes only its output slot and leaves the outputs alone
+proof fn lemma_sstep_frame(op: SsaOp, s: Ss, inp: Seq<f32>, t: int)
+    requires ssa_kind(op) >= 1, t != ssa_o(op)
+    ensures ssa_step(op, s, inp).env[t] == s.env[t]
+{}
+proof fn lemma_sstep_outs(op: SsaOp, s: Ss, inp: Seq<f32>)
+    requires ssa_kind(op) >= 1
+    ensures ssa_step(op, s, inp).outs == s.outs
+{}
+proof fn lemma_sstep_output(op: SsaOp, s: Ss, inp: Seq<f32>)
+    requires ssa_kind(op) == 0
+    ensures ssa_step(op, s, inp).env == s.env, ssa_step(op, s, inp).outs == s.outs.insert(out_idx(op), s.env[ssa_o(op)])
+{}
+proof fn lemma_ssim_init(bind: Seq<u32>, ops: Seq<SsaOp>, choices: Seq<Choice>)
+    ensures ssim(bind, ops, 0, Seq::<SsaOp>::empty(), choices)
+{
+    reveal(ssim);
+}
+/// which slots are pending after an emitting step (shared by the structural and the semantic transition lemmas)
+proof fn lemma_pend2_char(bind: Seq<u32>, count: u32, a: Seq<u32>, ops: Seq<SsaOp>, k: int, kx: int, ky: int, op2: SsaOp, bind2: Seq<u32>, count2: u32)
+    requires sinv(bind, count, a, ops, k), ssa_strict(ops), 0 <= k < ops.len(), ops.len() < 0x4000_0000,
+        bind[ssa_o(ops[k])] != u32::MAX, emits(bind, count, ops[k], kx, ky, op2, bind2, count2),
+    ensures
+        forall|s: int| #![trigger pend(bind2, ops, k + 1, s)] pend(bind2, ops, k + 1, s) == ((kx >= 0 && s == kx) || (ky >= 0 && s == ky) || (s != ssa_o(ops[k]) && pend(bind, ops, k, s))),
+        forall|s: int| 0 <= s < ops.len() && #[trigger] bind[s] != u32::MAX ==> bind2[s] == bind[s],
+        pend(bind, ops, k, ssa_o(ops[k])),
+        forall|s: int| #[trigger] pend(bind, ops, k, s) && s != ssa_o(ops[k]) ==> bind[s] != bind[ssa_o(ops[k])],
+        bind2.len() == ops.len(),
+{
+    let n = ops.len() as int;
+    let op = ops[k]; let o = ssa_o(op);
+    lemma_pre_emit(bind, count, a, ops, k, kx, ky, op2, bind2, count2);
+    reveal(sinv);
+    assert(pend(bind, ops, k, o));
+    assert forall|s: int| 0 <= s < n && bind[s] != u32::MAX implies bind2[s] == bind[s] by {}
+    assert forall|s: int| 0 <= s < n && s != kx && s != ky implies bind2[s] == bind[s] by {}
+    assert forall|s: int| pend(bind2, ops, k + 1, s) == ((kx >= 0 && s == kx) || (ky >= 0 && s == ky) || (s != o && pend(bind, ops, k, s))) by {
+        lemma_pend_step(bind2, ops, k, s);
+        if 0 <= s < n && s != kx && s != ky && bind[s] != u32::MAX && uses(op, s) {
+            lemma_bound_arg_pending(bind, count, a, ops, k, s);
+        }
+        if kx >= 0 && s == kx && bind[kx] != u32::MAX { lemma_bound_arg_pending(bind, count, a, ops, k, kx); }
+        if ky >= 0 && s == ky && bind[ky] != u32::MAX { lemma_bound_arg_pending(bind, count, a, ops, k, ky); }
+    }
+}
+proof fn lemma_ssim_skip(bind: Seq<u32>, count: u32, a: Seq<u32>, ops: Seq<SsaOp>, k: int, out: Seq<SsaOp>, choices: Seq<Choice>)
+    requires sinv(bind, count, a, ops, k), ssa_strict(ops), 0 <= k < ops.len(), ssa_kind(ops[k]) >= 1, bind[ssa_o(ops[k])] == u32::MAX,
+        ssim(bind, ops, k, out, choices),
+    ensures ssim(bind, ops, k + 1, out, choices)
+{
+    reveal(ssim);
+    let op = ops[k]; let o = ssa_o(op);
+    lemma_sinv_facts(bind, count, a, ops, k);
+    assert forall|sn: Ss, so: Ss, inp: Seq<f32>| #![trigger rel(bind, ops, k + 1, sn.env, so.env), tp(ops, k + 1, choices, so, inp)]
+        rel(bind, ops, k + 1, sn.env, so.env) && sn.outs == so.outs && tp(ops, k + 1, choices, so, inp)
+        implies ssa_run_rev(out, 0, out.len() as int, sn, inp).outs == ssa_run_rev(ops, 0, k + 1, so, inp).outs by {
+        let so2 = ssa_step(op, so, inp);
+        assert(tp(ops, k, choices, so2, inp));
+        assert(rel(bind, ops, k, sn.env, so2.env)) by {
+            assert forall|s: int| #[trigger] pend(bind, ops, k, s) implies sn.env[bind[s] as int] == so2.env[s] by {
+                lemma_live_step(ops, k, s);
+                assert(s != o);
+                assert(pend(bind, ops, k + 1, s));
+                lemma_sstep_frame(op, so, inp, s);
+            }
+        }
+        lemma_sstep_outs(op, so, inp);
+        assert(ssa_run_rev(ops, 0, k + 1, so, inp) == ssa_run_rev(ops, 0, k, so2, inp));
+    }
+}
+/// under the clause's trace condition the original op's value is the value of slot `src`
+spec fn selects(ops: Seq<SsaOp>, k: int, choices: Seq<Choice>, src: int) -> bool {
+    forall|so: Ss, inp: Seq<f32>| #![trigger ssa_step(ops[k], so, inp)]
+        clause_ok(ops, k, choices, so, inp) ==> ssa_step(ops[k], so, inp).env[ssa_o(ops[k])] == so.env[src]
+}
+proof fn lemma_ssim_alias(bind: Seq<u32>, count: u32, a: Seq<u32>, ops: Seq<SsaOp>, k: int, src: int, out: Seq<SsaOp>, choices: Seq<Choice>)
+    requires sinv(bind, count, a, ops, k), ssa_strict(ops), 0 <= k < ops.len(), ssa_kind(ops[k]) >= 2,
+        uses(ops[k], src), 0 <= src < ops.len(), src != ssa_o(ops[k]),
+        bind[ssa_o(ops[k])] != u32::MAX, bind[src] == u32::MAX,
+        selects(ops, k, choices, src), ssim(bind, ops, k, out, choices),
+    ensures ssim(bind.update(src, bind[ssa_o(ops[k])]), ops, k + 1, out, choices)
+{
+    reveal(ssim);
+    let n = ops.len() as int;
+    let op = ops[k]; let o = ssa_o(op);
+    let bind2 = bind.update(src, bind[o]);
+    lemma_sinv_facts(bind, count, a, ops, k);
+    assert(pend(bind, ops, k, o)) by { reveal(sinv); }
+    assert forall|s: int| pend(bind2, ops, k + 1, s) == (s == src || (s != o && pend(bind, ops, k, s))) by {
+        lemma_pend_step(bind2, ops, k, s);
+        if 0 <= s < n && s != src && bind[s] != u32::MAX && uses(op, s) {
+            lemma_bound_arg_pending(bind, count, a, ops, k, s);
+        }
+    }
+    assert forall|sn: Ss, so: Ss, inp: Seq<f32>| #![trigger rel(bind2, ops, k + 1, sn.env, so.env), tp(ops, k + 1, choices, so, inp)]
+        rel(bind2, ops, k + 1, sn.env, so.env) && sn.outs == so.outs && tp(ops, k + 1, choices, so, inp)
+        implies ssa_run_rev(out, 0, out.len() as int, sn, inp).outs == ssa_run_rev(ops, 0, k + 1, so, inp).outs by {
+        let so2 = ssa_step(op, so, inp);
+        assert(clause_ok(ops, k, choices, so, inp) && tp(ops, k, choices, so2, inp));
+        assert(pend(bind2, ops, k + 1, src));
+        assert(sn.env[bind2[src] as int] == so.env[src]);
+        assert(rel(bind, ops, k, sn.env, so2.env)) by {
+            assert forall|s: int| #[trigger] pend(bind, ops, k, s) implies sn.env[bind[s] as int] == so2.env[s] by {
+                if s == o {
+                    assert(so2.env[o] == so.env[src]);
+                } else {
+                    assert(s != src);
+                    assert(pend(bind2, ops, k + 1, s));
+                    assert(bind2[s] == bind[s]);
+                    lemma_sstep_frame(op, so, inp, s);
+                }
+            }
+        }
+        lemma_sstep_outs(op, so, inp);
+        assert(ssa_run_rev(ops, 0, k + 1, so, inp) == ssa_run_rev(ops, 0, k, so2, inp));
+    }
+}
+/// the emitted op computes, from its renamed kept arguments, the value the original op defines (given the clause's
+/// trace condition when the op was replaced by a copy of the selected operand)
+spec fn sem_ok(ops: Seq<SsaOp>, k: int, choices: Seq<Choice>, kx: int, ky: int, op2: SsaOp, bo: int, ax: int, bx: int) -> bool {
+    forall|sn: Ss, so: Ss, inp: Seq<f32>| #![trigger ssa_step(op2, sn, inp), ssa_step(ops[k], so, inp)]
+        (kx >= 0 ==> sn.env[ax] == so.env[kx]) && (ky >= 0 ==> sn.env[bx] == so.env[ky]) && clause_ok(ops, k, choices, so, inp)
+        ==> ssa_step(op2, sn, inp).env[bo] == ssa_step(ops[k], so, inp).env[ssa_o(ops[k])]
+}
+proof fn lemma_ssim_emit(bind: Seq<u32>, count: u32, a: Seq<u32>, ops: Seq<SsaOp>, k: int, kx: int, ky: int, op2: SsaOp, bind2: Seq<u32>, count2: u32,
+                         out: Seq<SsaOp>, choices: Seq<Choice>)
+    requires sinv(bind, count, a, ops, k), ssa_strict(ops), 0 <= k < ops.len(), ops.len() < 0x4000_0000,
+        bind[ssa_o(ops[k])] != u32::MAX, emits(bind, count, ops[k], kx, ky, op2, bind2, count2),
+        sem_ok(ops, k, choices, kx, ky, op2, bind[ssa_o(ops[k])] as int, if kx >= 0 { bind2[kx] as int } else { -1 }, if ky >= 0 { bind2[ky] as int } else { -1 }),
+        ssim(bind, ops, k, out, choices),
+    ensures ssim(bind2, ops, k + 1, out.push(op2), choices)
+{
+    reveal(ssim);
+    let n = ops.len() as int;
+    let op = ops[k]; let o = ssa_o(op);
+    let out2 = out.push(op2);
+    let m = out.len() as int;
+    lemma_pend2_char(bind, count, a, ops, k, kx, ky, op2, bind2, count2);
+    lemma_sinv_facts(bind, count, a, ops, k);
+    assert forall|sn: Ss, so: Ss, inp: Seq<f32>| #![trigger rel(bind2, ops, k + 1, sn.env, so.env), tp(ops, k + 1, choices, so, inp)]
+        rel(bind2, ops, k + 1, sn.env, so.env) && sn.outs == so.outs && tp(ops, k + 1, choices, so, inp)
+        implies ssa_run_rev(out2, 0, out2.len() as int, sn, inp).outs == ssa_run_rev(ops, 0, k + 1, so, inp).outs by {
+        let so2 = ssa_step(op, so, inp);
+        let sn2 = ssa_step(op2, sn, inp);
+        assert(clause_ok(ops, k, choices, so, inp) && tp(ops, k, choices, so2, inp));
+        if kx >= 0 { assert(pend(bind2, ops, k + 1, kx)); assert(sn.env[bind2[kx] as int] == so.env[kx]); }
+        if ky >= 0 { assert(pend(bind2, ops, k + 1, ky)); assert(sn.env[bind2[ky] as int] == so.env[ky]); }
+        assert(sn2.env[bind[o] as int] == so2.env[o]);
+        assert(rel(bind, ops, k, sn2.env, so2.env)) by {
+            assert forall|s: int| #[trigger] pend(bind, ops, k, s) implies sn2.env[bind[s] as int] == so2.env[s] by {
+                if s != o {
+                    assert(bind[s] != bind[o]);
+                    lemma_sstep_frame(op2, sn, inp, bind[s] as int);
+                    assert(pend(bind2, ops, k + 1, s));
+                    assert(bind2[s] == bind[s]);
+                    lemma_sstep_frame(op, so, inp, s);
+                }
+            }
+        }
+        lemma_sstep_outs(op, so, inp);
+        lemma_sstep_outs(op2, sn, inp);
+        lemma_ssa_run_ext(out2, out, 0, m, sn2, inp);
+        assert(out2[m] == op2);
+        assert(ssa_run_rev(out2, 0, m + 1, sn, inp) == ssa_run_rev(out2, 0, m, sn2, inp));
+        assert(ssa_run_rev(ops, 0, k + 1, so, inp) == ssa_run_rev(ops, 0, k, so2, inp));
+    }
+}
+proof fn lemma_ssim_output(bind: Seq<u32>, count: u32, a: Seq<u32>, ops: Seq<SsaOp>, k: int, op2: SsaOp, out: Seq<SsaOp>, choices: Seq<Choice>)
+    requires sinv(bind, count, a, ops, k), ssa_strict(ops), 0 <= k < ops.len(), ops.len() < 0x4000_0000, ssa_kind(ops[k]) == 0,
+        ssa_kind(op2) == 0, out_idx(op2) == out_idx(ops[k]),
+        ssa_o(op2) == bind_step(bind, count, ssa_o(ops[k])).0[ssa_o(ops[k])],
+        ssim(bind, ops, k, out, choices),
+    ensures ssim(bind_step(bind, count, ssa_o(ops[k])).0, ops, k + 1, out.push(op2), choices)
+{
+    reveal(ssim);
+    let n = ops.len() as int;
+    let op = ops[k]; let x = ssa_o(op);
+    let (bind2, count2) = bind_step(bind, count, x);
+    let out2 = out.push(op2);
+    let m = out.len() as int;
+    lemma_pre_output(bind, count, a, ops, k);
+    lemma_sinv_facts(bind, count, a, ops, k);
+    assert forall|s: int| pend(bind2, ops, k + 1, s) == (s == x || pend(bind, ops, k, s)) by {
+        lemma_pend_step(bind2, ops, k, s);
+        if s == x && bind[x] != u32::MAX { lemma_bound_arg_pending(bind, count, a, ops, k, x); }
+    }
+    assert forall|sn: Ss, so: Ss, inp: Seq<f32>| #![trigger rel(bind2, ops, k + 1, sn.env, so.env), tp(ops, k + 1, choices, so, inp)]
+        rel(bind2, ops, k + 1, sn.env, so.env) && sn.outs == so.outs && tp(ops, k + 1, choices, so, inp)
+        implies ssa_run_rev(out2, 0, out2.len() as int, sn, inp).outs == ssa_run_rev(ops, 0, k + 1, so, inp).outs by {
+        let so2 = ssa_step(op, so, inp);
+        let sn2 = ssa_step(op2, sn, inp);
+        assert(tp(ops, k, choices, so2, inp));
+        lemma_sstep_output(op, so, inp);
+        lemma_sstep_output(op2, sn, inp);
+        assert(pend(bind2, ops, k + 1, x));
+        assert(sn.env[bind2[x] as int] == so.env[x]);
+        assert(sn2.outs == so2.outs);
+        assert(rel(bind, ops, k, sn2.env, so2.env)) by {
+            assert forall|s: int| #[trigger] pend(bind, ops, k, s) implies sn2.env[bind[s] as int] == so2.env[s] by {
+                assert(pend(bind2, ops, k + 1, s));
+                assert(bind2[s] == bind[s]);
+            }
+        }
+        lemma_ssa_run_ext(out2, out, 0, m, sn2, inp);
+        assert(out2[m] == op2);
+        assert(ssa_run_rev(out2, 0, m + 1, sn, inp) == ssa_run_rev(out2, 0, m, sn2, inp));
+        assert(ssa_run_rev(ops, 0, k + 1, so, inp) == ssa_run_rev(ops, 0, k, so2, inp));
+    }
+}
+/// S3, final step: nothing is pending at the end, so the simulation is unconditional in the environments
+proof fn lemma_ssim_end(bind: Seq<u32>, ops: Seq<SsaOp>, out: Seq<SsaOp>, choices: Seq<Choice>)
+    requires ssim(bind, ops, ops.len() as int, out, choices), ssa_strict(ops)
+    ensures forall|en: Env, eo: Env, o: Map<int, f32>, inp: Seq<f32>|
+        #![trigger tp(ops, ops.len() as int, choices, Ss { env: eo, outs: o }, inp), ssa_run_rev(out, 0, out.len() as int, Ss { env: en, outs: o }, inp)]
+        tp(ops, ops.len() as int, choices, Ss { env: eo, outs: o }, inp)
+        ==> ssa_run_rev(out, 0, out.len() as int, Ss { env: en, outs: o }, inp).outs == ssa_run_rev(ops, 0, ops.len() as int, Ss { env: eo, outs: o }, inp).outs
+{
+    reveal(ssim);
+    let n = ops.len() as int;
+    assert forall|en: Env, eo: Env, o: Map<int, f32>, inp: Seq<f32>|
+        #![trigger tp(ops, n, choices, Ss { env: eo, outs: o }, inp), ssa_run_rev(out, 0, out.len() as int, Ss { env: en, outs: o }, inp)]
+        tp(ops, n, choices, Ss { env: eo, outs: o }, inp)
+        implies ssa_run_rev(out, 0, out.len() as int, Ss { env: en, outs: o }, inp).outs == ssa_run_rev(ops, 0, n, Ss { env: eo, outs: o }, inp).outs by {
+        let sn = Ss { env: en, outs: o };
+        let so = Ss { env: eo, outs: o };
+        assert(rel(bind, ops, n, sn.env, so.env)) by {
+            assert forall|s: int| #[trigger] pend(bind, ops, n, s) implies sn.env[bind[s] as int] == so.env[s] by {
+                assert(live(ops, n).contains(s));
+            }
+        }
     }
 }
 '''
